@@ -351,9 +351,9 @@ func c13Random(c *fw.Ctx, idx int) {
 
 func init() {
 	fw.Register(&fw.Monitor{
-		ID:    "C13",
-		Title: "convex hull is the exact convex hull of the input points",
-		Rule: "ConvexHullFlat / ConvexHull(MultiPoint|LineString) on integer point multisets compared with a monotone-chain hull in exact integer arithmetic: vertex set == strict extreme points, every vertex bitwise an input coordinate (unique ids in Z/M), closed ring with strict turns of one sign, 2-point line when collinear, point when coincident, caller's slice unchanged; every sequence of 1..5 points on a 3x3 grid; random multisets of 1..200 points (sizes around the 50-point switch over-weighted) on grids 3..2^20 in classes coincident/two-values/collinear/circle/clustered/uniform/few-extremes. distinct_nontrivial = distinct (class, n, #distinct points, collinear) combinations",
+		ID:     "C13",
+		Title:  "convex hull is the exact convex hull of the input points",
+		Rule:   "ConvexHullFlat / ConvexHull(MultiPoint|LineString) on integer point multisets compared with a monotone-chain hull in exact integer arithmetic: vertex set == strict extreme points, every vertex bitwise an input coordinate (unique ids in Z/M), closed ring with strict turns of one sign, 2-point line when collinear, point when coincident, caller's slice unchanged; every sequence of 1..5 points on a 3x3 grid; random multisets of 1..200 points (sizes around the 50-point switch over-weighted) on grids 3..2^20 in classes coincident/two-values/collinear/circle/clustered/uniform/few-extremes. distinct_nontrivial = distinct (class, n, #distinct points, collinear) combinations",
 		Assume: []string{"int64 arithmetic is exact on grids up to 2^20 x 10"},
 		Classes: []fw.Class{
 			{Name: "exhaustive-3x3", Quick: 66429, Thorough: 66429, Run: c13Exhaustive, Exhaustive: "every sequence of 1..5 points on a 3x3 grid"},
